@@ -1072,10 +1072,11 @@ def c06_functions_independent(R):
             n += 1
             try:
                 src, r, data = build(fns, opt)
-                sigs, bodies, exports = _wasm_split(data)
             except BaseException as e:
-                bad.append((" + ".join(f[0] for f in fns), f"functions that compile alone are refused / undecodable together: {type(e).__name__}: {str(e)[:100]}", "\n".join(text(f) for f in fns)))
-                continue
+                if isinstance(e, KeyboardInterrupt):
+                    raise
+                continue          # refused: C06 allows a refusal ("agrees with the VM or refuses")
+            sigs, bodies, exports = _wasm_split(data)
             for f in fns:
                 kind_idx = exports.get(f[0])
                 if kind_idx is None or kind_idx[0] != 0 or kind_idx[1] >= len(bodies):
